@@ -40,6 +40,8 @@ def legacy_specs(P: str = "G", runtime_only: bool = False) -> list[CS]:
                 FS("kwargs", "child", f"List[{N}]", "list", (N,), default="field(default_factory=list)"),
             ],
         ),
+        # child fields declared compare=False (still children: attached, counted into content ids, propagated through)
+        CS(f"{P}Ann", (N,), [FS("target", "child", f"{N} | None", "opt", (N,), default="None"), FS("aside", "child", f"{N} | None", "opt", (N,), compare=False, default="None"), FS("extras", "child", f"tuple[{N}, ...]", "tuple", (N,), compare=False, default="()")]),
         # a leaf subclass that nevertheless has a child (fits narrowly typed fields such as Lst.opt)
         CS(f"{P}Wrap", (f"{P}Leaf",), [FS("inner", "child", f"{N} | None", "opt", (N,), default="None")]),
         # a class that is not defined at module top level
